@@ -173,7 +173,7 @@ func init() {
 		Bound      int    `json:"bound"`
 		Max        int    `json:"max"`
 	}
-	vh.AddPart("C08", "recover-conc", "sim", vh.Opts{Shards: 16, TimeoutS: 300, TimeoutSThorough: 3000},
+	vh.AddPart("C08", "recover-conc", "sim", vh.Opts{NoConfirm: true, Shards: 16, TimeoutS: 300, TimeoutSThorough: 3000},
 		func(e *vh.Env) []c08Conc {
 			var cs []c08Conc
 			for _, cf := range [][3]int{{1, 1, 1}, {2, 1, 1}, {1, 2, 2}, {2, 2, 3}, {1, 1, 0}, {1, 2, 0}} {
